@@ -70,7 +70,7 @@ impl Write for Sink {
     }
 }
 
-fn run_once<C: CellType, E: Executable<C>>(e: &E, input: &[u8], budget: Option<usize>) -> (Vec<Ev>, Option<bool>) {
+pub fn run_once<C: CellType, E: Executable<C>>(e: &E, input: &[u8], budget: Option<usize>) -> (Vec<Ev>, Option<bool>) {
     let log = Rc::new(RefCell::new(vec![]));
     let fin;
     {
